@@ -175,7 +175,8 @@ def parse_format_string(format_str: str, description_template: Optional[str] = N
     # Validate: template references must exist in captures
     if description_template:
         for ref in _template_fields(description_template):
-            if ref not in custom_captures:
+            # {0} is a positional field for str.format, never the column that happens to be named 0
+            if ref not in custom_captures or ref.isdecimal():
                 available = ', '.join('{' + k + '}' for k in custom_captures)
                 raise ValueError(
                     f"Description template references '{{{ref}}}' but it's not captured. "
